@@ -91,8 +91,9 @@ def _draw(seed, maps, cls, attempt):
                 amp = rng.uniform(100, 200)
                 d, phi = rng.uniform(3.2, 4.5), rng.uniform(0, 2 * math.pi)
                 amp2 = amp * rng.uniform(0.7, 1.0)
-                comps = [(amp, 0.0, 0.0, smaj, smin, th),
-                         (-amp2, d * math.cos(phi) + 0.37, d * math.sin(phi) + 0.41, smaj, smin, th)]
+                dom = rng.choice([1, -1])       # the island is dominated by a positive or by a negative peak
+                comps = [(dom * amp, 0.0, 0.0, smaj, smin, th),
+                         (-dom * amp2, d * math.cos(phi) + 0.37, d * math.sin(phi) + 0.41, smaj, smin, th)]
                 r = d + 1 + _footprint(amp, smaj)
             elif rng.random() < 0.3:
                 # same-sign companion: a blended, multi-component island
